@@ -47,6 +47,9 @@ class Contract:
     allow_unsupported: bool = False
     domain: List[str] = field(default_factory=list)        # sub-domain on which the code meets `ensures`
     returns_when: List[str] = field(default_factory=list)  # pre-state conditions under which it must not raise
+    ghost_vars: Dict[str, str] = field(default_factory=dict)   # ghost local -> kind
+    ghost_init: List[str] = field(default_factory=list)        # ghost statements run at entry
+    ghost_after: Dict[str, str] = field(default_factory=dict)  # source text of a statement -> ghost code
     watch: List[str] = field(default_factory=list)         # spec expressions shown in counter-models
     tier: str = 'quick'              # 'thorough': verified only by the thorough command (slow)
     verify_only: bool = False        # never used at call sites
@@ -221,4 +224,8 @@ def int_text(s):
         return False
 
 
-NATIVE_BUILTINS = dict(int_text=int_text, implies=implies, iff=iff, forall=forall, exists=exists)
+def sumover(s, c):
+    return sum(c[m] for m in s)
+
+
+NATIVE_BUILTINS = dict(int_text=int_text, sumover=sumover,implies=implies, iff=iff, forall=forall, exists=exists)
